@@ -668,7 +668,7 @@ func vRunTrigCase(c *vCase, prop string) {
 	}
 	reconfAt := map[int]string{}
 	for k := 0; k < nreconf && len(tr.blocks) > 2; k++ {
-		reconfAt[1+r.Intn(len(tr.blocks)-1)] = vPick(r, "trig", "trig", "len-same", "len-change", "npre-only", "len-shrink")
+		reconfAt[1+r.Intn(len(tr.blocks)-1)] = vPick(r, "trig", "trig", "len-same", "len-change", "npre-only", "len-shrink", "trig-flip")
 	}
 	if emtRaise && len(tr.blocks) > 2 {
 		reconfAt = map[int]string{}
@@ -696,6 +696,31 @@ func vRunTrigCase(c *vCase, prop string) {
 			cur.endFrame = firstFrame + FrameIndex(f.pos)
 			ne := &vEpoch{firstBlock: bi, startFrame: cur.endFrame, npre: cur.npre, nsamp: cur.nsamp, set: cur.set, how: what}
 			switch what {
+			case "trig-flip":
+				// the settings in force with one detail changed: the direction of the level trigger (or of the edge trigger) turned round
+				ne.set = append([]vTrigSetting(nil), cur.set...)
+				flipped := false
+				for ch := range ne.set {
+					t := &ne.set[ch].ts
+					switch {
+					case t.EdgeMulti:
+					case t.LevelTrigger:
+						t.LevelRising = !t.LevelRising
+						ne.set[ch].desc += "/level-direction-flipped"
+						flipped = true
+					case t.EdgeTrigger && (t.EdgeRising != t.EdgeFalling):
+						t.EdgeRising, t.EdgeFalling = t.EdgeFalling, t.EdgeRising
+						ne.set[ch].desc += "/edge-direction-flipped"
+						flipped = true
+					}
+				}
+				if flipped {
+					c.Cov("reconf_one_detail_flipped", 1)
+				}
+				if err := apply(ne.set); err != nil {
+					c.Inconclusive("setup", "ChangeTriggerState rejected a valid setting: %v", err)
+					return
+				}
 			case "trig":
 				ne.set = genSet()
 				if err := apply(ne.set); err != nil {
